@@ -269,9 +269,14 @@ def run(ctx):
                   'acquisition decision differs from the reference: %s %s' % ('; '.join(bad_rows[:3]), sorted(extra_atoms) or ''), hacq.loc(loop))
     # busy.add(connection) after the loop, with the connection chosen in the loop
     adds = [c for c in U.calls(hacq.node, attr='add') if isinstance(c.func.value, ast.Attribute) and c.func.value.attr == 'busy']
-    okadd = len(adds) == 1 and bool(loops) and adds[0].lineno > loops[0].end_lineno and isinstance(adds[0].args[0], ast.Name) and adds[0].args[0].id == 'connection'
+    okadd = len(adds) == 1 and bool(loops) and adds[0].lineno > loops[0].end_lineno and len(adds[0].args) == 1 and isinstance(adds[0].args[0], ast.Name)
     rets = [r for r in walk_no_nested(hacq.node) if isinstance(r, ast.Return)]
-    okadd = okadd and all(isinstance(r.value, ast.Name) and r.value.id == 'connection' for r in rets) and bool(rets)
+    if okadd:
+        cname = adds[0].args[0].id
+        okadd = all(isinstance(r.value, ast.Name) and r.value.id == cname for r in rets) and bool(rets)
+        # the connection variable is bound only inside the acquisition loop (ready.pop() / factory())
+        cdefs = U.local_defs(hacq.node).get(cname, [])
+        okadd = okadd and bool(cdefs) and all(st.lineno >= loops[0].lineno and st.lineno <= loops[0].end_lineno for v, k, st in cdefs)
     ck.expect(okadd, 'C12-D3', hacq.qual, 'busy.add(connection) after the loop; the same connection is returned',
               'the connection handed out is not the one registered as busy', hacq.loc())
 
@@ -321,15 +326,17 @@ def run(ctx):
     pm = U.parents(clean.node)
     okd = False
     for i in walk_no_nested(clean.node):
-        if isinstance(i, ast.If):
-            body_dels = [b for b in i.body if isinstance(b, ast.Delete)]
-            tg = sorted(norm_text(t) for b in body_dels for t in b.targets)
-            if tg == ['self._host_pool_waiters[key]', 'self._host_pools[key]']:
-                t = i.test
-                parts = t.values if isinstance(t, ast.BoolOp) and isinstance(t.op, ast.And) else []
-                texts = sorted(norm_text(p) for p in parts)
-                if texts == ['not self._host_pool_waiters[key]', 'pool.empty()'] and not i.orelse:
-                    okd = True
+        if isinstance(i, ast.If) and not i.orelse:
+            body_dels = [t for b in i.body if isinstance(b, ast.Delete) for t in b.targets]
+            for tpat in ('not self._host_pool_waiters[L_k] and L_p.empty()', 'L_p.empty() and not self._host_pool_waiters[L_k]',
+                         'self._host_pool_waiters[L_k] == 0 and L_p.empty()'):
+                b_ = {}
+                if U.like(i.test, tpat, b_) and len(body_dels) == 2 and any(U.like(t, 'self._host_pools[L_k]', b_) for t in body_dels) \
+                        and any(U.like(t, 'self._host_pool_waiters[L_k]', b_) for t in body_dels):
+                    # L_k / L_p are the loop's key and pool
+                    for lp_ in walk_no_nested(clean.node):
+                        if isinstance(lp_, ast.For) and U.like(lp_.target, '(L_k, L_p)', dict(b_)) and 'self._host_pools.items()' in norm_text(lp_.iter):
+                            okd = True
     ck.expect(okd and len(dels) == 2, 'C12-D6', clean.qual, 'del both maps iff no waiters and pool.empty()',
               'host bookkeeping is not dropped exactly when the host has no waiters and no connections', clean.loc())
     emp = repo.func(hp.qual + '.empty')
@@ -340,11 +347,13 @@ def run(ctx):
     # new host entry: pool and waiter count created together
     okn = False
     for i in walk_no_nested(acq.node):
-        if isinstance(i, ast.If) and norm_text(i.test) == 'key not in self._host_pools':
+        b_ = {}
+        if isinstance(i, ast.If) and U.like(i.test, 'L_k not in self._host_pools', b_):
+            k_ = b_['L_k']
             tb = ' ; '.join(norm_text(b) for b in i.body)
             eb = ' ; '.join(norm_text(b) for b in i.orelse)
-            okn = 'self._host_pools[key] = HostPool(' in tb and 'self._host_pool_waiters[key] = 1' in tb \
-                and 'self._host_pools[key]' in eb and 'self._host_pool_waiters[key] += 1' in eb
+            okn = 'self._host_pools[%s] = HostPool(' % k_ in tb and 'self._host_pool_waiters[%s] = 1' % k_ in tb \
+                and 'self._host_pools[%s]' % k_ in eb and 'self._host_pool_waiters[%s] += 1' % k_ in eb
             mh = [c for c in U.calls(i, name='HostPool')]
             okn = okn and len(mh) == 1 and norm_text(U.kwarg(mh[0], 'max_connections', 1) or ast.Constant(value=None)) == 'self._max_host_count'
     ck.expect(okn, 'C12-D6', acq.qual, 'host pool created with the configured per-host limit together with its waiter count',
